@@ -5,6 +5,7 @@ CONSTANTS
   FwKinds = {"ok"}
   FwConfigs = {"--"}
   Values = {1, 2}
+  NoResult = {FALSE}
   ErrReplies = FALSE
   HostileClasses = {}
   MetaKeys = {}
@@ -19,5 +20,6 @@ INVARIANT ExecOnce
 INVARIANT Firewalled
 INVARIANT LoopAlive
 INVARIANT QuietDone
+INVARIANT NoWaiter
 VIEW View
 CHECK_DEADLOCK FALSE
